@@ -229,7 +229,7 @@ def _validate_device_specification(proto: v2.device_pb2.DeviceSpecification) -> 
                 f"Invalid DeviceSpecification: valid_qubits contains duplicate qubit '{q_name}'."
             )
         # Qubit names must be in the form <int>_<int> to be parsed as cirq.GridQubits.
-        if re.match(r'^[0-9]+\_[0-9]+$', q_name) is None:
+        if re.match(r'^-?[0-9]+\_-?[0-9]+$', q_name) is None:
             raise ValueError(
                 f"Invalid DeviceSpecification: valid_qubits contains the qubit '{q_name}' which is"
                 " not in the GridQubit form '<int>_<int>."
